@@ -238,6 +238,6 @@ def Worker.fuel (w : Worker) : Nat :=
     | .unlinking ids => ids.length + 2
     | .got r => reqCost r + 2
     | _ => 2
-  pcCost + (w.queue.map reqCost).foldl (· + ·) 0 + 2 * w.files.length + 8
+  pcCost + (w.queue.map reqCost).foldl (· + ·) 0 + 2 * w.files.length + w.postponed.length + 8
 
 end RaftLog
